@@ -1,13 +1,13 @@
 SPECIFICATION Spec
 CONSTANTS
-  NC = 3
+  NC = 4
   NU = 2
-  MaxConn = 3
-  MaxRefuse = 2
-  MaxFeed = 1
-  MaxEof = 1
+  MaxConn = 5
+  MaxRefuse = 3
+  MaxFeed = 2
+  MaxEof = 3
   SlowSet = {"C", "D", "X"}
-  CfgWrite = FALSE
+  CfgWrite = TRUE
 INVARIANT MonitorQuiet
 INVARIANT OneReceivePath
 INVARIANT LockDiscipline
